@@ -21,13 +21,17 @@ Theorem C07_push_loop_fuel : forall (M : MatchOps) (fuel : nat) (sv : server),
 Proof. exact @push_loop_spec. Qed.
 Print Assumptions C07_push_loop_fuel.
 
-(* handler_fuel: MessageReceivedFromGateway returns for EVERY command (any nesting of batches) in EVERY state, with
-   fuel linear in the heaviest outgoing Message a jettison pass meets: every loop instance iterates at most that often. *)
-Theorem C07_handler_fuel : forall (M : MatchOps) (fx : fixes) (c : bcmd) (fuel nest : nat) (b : bserver) (s : sid),
+(* handler_fuel.  Full statement aimed at (DESIGN 6, C07): "every handler returns within poly(size state + size msg)
+   steps".  Proved: MessageReceivedFromGateway returns for EVERY command (any nesting of batches) in EVERY state
+   (C07_handler_returns), with fuel LINEAR IN THE HEAVIEST OUTGOING MESSAGE a jettison pass meets while the handler runs
+   ([hpeak]): every loop instance iterates at most that often, and the handler computes [bhandle_spec].  Not proved: a
+   polynomial bound of [hpeak] in the size of the INITIAL state and Message (it needs a cost analysis of every handler of
+   Refl/Server.v: a queued Message grows by one item per NodeChangedAux / GetDataCallback call) -- hence `_partial`. *)
+Theorem C07_handler_fuel_partial : forall (M : MatchOps) (fx : fixes) (c : bcmd) (fuel nest : nat) (b : bserver) (s : sid),
   2 <= fuel -> hpeak fx nest b s c < fuel ->
   bhandle fx true fuel nest b s c = Some (bhandle_spec fx nest b s c).
 Proof. exact @handler_fuel. Qed.
-Print Assumptions C07_handler_fuel.
+Print Assumptions C07_handler_fuel_partial.
 
 Theorem C07_handler_returns : forall (M : MatchOps) (fx : fixes) (c : bcmd) (nest : nat) (b : bserver) (s : sid),
   exists fuel0, forall fuel, fuel0 <= fuel -> exists b', bhandle fx true fuel nest b s c = Some b'.
